@@ -39,6 +39,12 @@ def symcoef_jobs(name, ops, tier, seed, extra_configs=()):
     # by-name dispatch: with a wrapper set the generated functions are looked up in algebra.numspace by their names; two rounds
     chunks = chunks + [[dict(p=3, wrapper='identity', random=5, rounds=2), dict(p=2, q=0, r=1, wrapper='wraps', random=5, rounds=2)]]
     bound += '; two algebras with a wrapper (by-name dispatch), every operator asked twice per pattern'
+    # twins: a default-basis and a custom-basis algebra with the same signature and start index in one process, asked for the
+    # same (few, grade-block) key patterns one after the other - whatever one of them generated must not serve the other
+    chunks = chunks + [[dict(p=2, q=0, r=1, random=8, modes=['grade']), dict(name='2DPGA', random=8, modes=['grade']),
+                        dict(p=3, q=0, r=1, random=6, modes=['grade']), dict(name='3DPGA', random=6, modes=['grade']),
+                        dict(p=3, random=8, modes=['grade']), dict(p=3, basis=['e', 'e1', 'e2', 'e3', 'e12', 'e31', 'e23', 'e123'], random=8, modes=['grade'])]]
+    bound += '; default / custom-basis twins over one signature in one process on grade-block patterns'
     for i, ch in enumerate(chunks):
         jobs.append({'name': f'symcoef[{name}]#{i}', 'bound': bound,
                      'job': {'kind': 'symcoef', 'ops': list(ops), 'configs': list(ch) + (list(extra_configs) if i == 0 else []),
